@@ -90,6 +90,10 @@ CHECKS = {
    "exhaustive enumeration of close points x close kinds x outstanding requests against the real transports",
    "On each real transport and for each close kind (clean / EOF / abort) the peer closes after every sampled (thorough: every) prefix of the hello, while the established session is idle, with 0-2 requests outstanding before any reply byte, after prefixes of the reply stream and between two replies; then a further request is issued. Every pending and subsequent operation must resolve within 2.5 s, without zero-length-read loops or CPU burn, and Ok is accepted only for replies that were completely delivered before the close.",
    "Real-time watchdog with three orders of magnitude of slack over loopback latency.", "DESIGN.md §2 E4 C07"),
+ "C20": ("E4", "exploration",
+   "exhaustive configuration matrix (transport x level x subscriber wiring x filter x outcome x secret) with an encoding search over the complete captured log",
+   "The client runs in a child process with a real fmt subscriber wired as the crate's examples do (try_init, which installs the log bridge), as a plain subscriber, and with EnvFilter directives as the agent does, for SSH passwords and TLS RSA / EC client keys, on success, authentication failure, a keyboard-interactive-only server and a refused connection; the real agent runs with the remote target (keys by path, PEM bundles, wrong PEM kinds, RUST_LOG directives). Every byte the child prints is searched for the secret in clear, Debug-escaped, hex, base64 and byte-list encodings (for keys: every window of the secret part of the DER).",
+   "Only the listed encodings are searched; the fake peers live in the parent process so their logging is not captured.", "DESIGN.md §2 E4 C20"),
 }
 
 NOT_YET = "check not built yet (construction in progress; see DESIGN.md)"
